@@ -113,7 +113,7 @@ def _normalisation_counts(ctx):
         mods = set()
     out = {}
     fields = ('inlined_constants', 'unrolled_table_loops', 'expanded_method_wrappers', 'split_parallel_assignments', 'expanded_closing',
-              'hoisted_walrus', 'inlined_method_aliases', 'inlined_attribute_aliases', 'split_conditional_returns',
+              'hoisted_walrus', 'inlined_super_aliases', 'inlined_method_aliases', 'inlined_attribute_aliases', 'split_conditional_returns',
               'spliced_star_tuples', 'inlined_helper_calls')
     for name, m in sorted(getattr(ctx.program, 'modules', {}).items()):
         if mods and name not in mods:
